@@ -1,8 +1,8 @@
 package types
 
 import (
-	"crypto/ed25519"
 	"bytes"
+	"crypto/ed25519"
 	"crypto/md5"
 	"crypto/sha1"
 	"encoding/base64"
@@ -268,6 +268,7 @@ type ReDKG struct {
 // add new public communication keys to each participant; this value can be nil.
 func GenerateReDKGMessage(messages []storage.Message, newCommPubKeys map[string][]byte) (*ReDKG, error) {
 	var reDKG ReDKG
+	laterCommPubKeys := map[string][][]byte{}
 
 	for _, msg := range messages {
 		if fsm.Event(msg.Event) == signature_proposal_fsm.EventInitProposal {
@@ -302,8 +303,18 @@ func GenerateReDKGMessage(messages []storage.Message, newCommPubKeys map[string]
 		// part. A dump holds whatever was posted to the board, though: a line under that event's
 		// name ends the key generation only if it is a signing proposal for this round that one of
 		// its participants signed. Other messages of the signing phase are left out.
-		if fsm.Event(msg.Event) == signing_proposal_fsm.EventSigningStart && isSigningProposalOf(&reDKG, msg) {
+		if fsm.Event(msg.Event) == signing_proposal_fsm.EventSigningStart && isSigningProposalOf(&reDKG, laterCommPubKeys, msg) {
 			break
+		}
+		// (the round may have been reinitialised on this board before: its participants then sign
+		// with the keys that reinitialisation gave them)
+		if msg.Event == string(ReinitDKG) && msg.DkgRoundID == reDKG.DKGID {
+			var earlier ReDKG
+			if err := json.Unmarshal(msg.Data, &earlier); err == nil && earlier.DKGID == reDKG.DKGID {
+				for _, p := range earlier.Participants {
+					laterCommPubKeys[p.Name] = append(laterCommPubKeys[p.Name], p.NewCommPubKey)
+				}
+			}
 		}
 		if IsSigningPhaseEvent(fsm.Event(msg.Event)) {
 			continue
@@ -316,8 +327,9 @@ func GenerateReDKGMessage(messages []storage.Message, newCommPubKeys map[string]
 }
 
 // isSigningProposalOf reports whether msg is a signing proposal for the round collected in reDKG,
-// signed by one of the round's participants (with the key its opening proposal registers).
-func isSigningProposalOf(reDKG *ReDKG, msg storage.Message) bool {
+// signed by one of the round's participants (with the key its opening proposal registers, or one
+// that an earlier reinitialisation of the round on this board gave it).
+func isSigningProposalOf(reDKG *ReDKG, laterCommPubKeys map[string][][]byte, msg storage.Message) bool {
 	if reDKG.DKGID == "" || msg.DkgRoundID != reDKG.DKGID {
 		return false
 	}
@@ -336,8 +348,13 @@ func isSigningProposalOf(reDKG *ReDKG, msg storage.Message) bool {
 		return false
 	}
 	for _, p := range reDKG.Participants {
-		if p.Name == msg.SenderAddr && len(p.OldCommPubKey) == ed25519.PublicKeySize && msg.Verify(p.OldCommPubKey) {
-			return true
+		if p.Name != msg.SenderAddr {
+			continue
+		}
+		for _, key := range append([][]byte{p.OldCommPubKey}, laterCommPubKeys[p.Name]...) {
+			if len(key) == ed25519.PublicKeySize && msg.Verify(key) {
+				return true
+			}
 		}
 	}
 	return false
